@@ -437,7 +437,7 @@ def emptiness_edges(body, pred):
 VALUE_PASS = re.compile(r"(::deref$|::deref_mut$|::as_ref$|::as_mut$|::borrow$|::borrow_mut$|::clone$|::into$|::from$|::as_str$|::as_mut_str$|"
                         r"::to_owned$|::to_string$|::as_bytes$|core::fmt::rt::Argument.*::new_\w+$|core::fmt::Arguments.*::new\w*$|alloc::fmt::format$)")
 OPTION_SELECT = re.compile(r"option::Option::<T>::(map_or|map_or_else|unwrap_or|unwrap_or_else)$")
-CLOSURE_TY = re.compile(r"^C\{([^|}]+)[|}]")
+CLOSURE_TY = re.compile(r"^C\{(.+?)\|")
 
 
 def value_leaves(cg, body, operand, classify_call=None, field=None, _seen=None, _ctx=None):
